@@ -74,7 +74,7 @@ class World:
         if k == "slice":
             et = p.under(tid)["elem"]
             ek = p.kind(et)
-            if ek == "basic" or (ek == "array" and p.kind(p.under(et)["elem"]) == "basic"):
+            if (ek == "basic" and p.basic(et) != "string") or (ek == "array" and p.kind(p.under(et)["elem"]) == "basic"):
                 srt = z3.ArraySort(BV64, self.e.sort_of(et))
                 arr = z3.Const(self.e.fresh_name(name + ".data"), srt)
                 boid = self.e.new_obj(self.st, ZArr(arr, et, None), None, name + ".data")
